@@ -229,7 +229,7 @@ Definition assemble (last_n : N) (ps : option prove_state) (hs : list vhdr) (r s
               let* ok := is_parent_of a b in
               if ok then Ok (Some (skip_to_last (last_n - l) (map key_of reorg_hs) ++ new_last))
               else Ok None
-          | _, _ => Panic S_SLICE
+          | _, _ => Ok None   (* fix commit 155667d: reorg_count < headers.len() is checked first *)
           end
         else Ok None
     end.
@@ -243,6 +243,8 @@ Definition execute
   | PNone => Ok (unchanged E_PEER_NOT_FOUND None None st)
   | PNoRequest ps => Ok (unchanged C_OK ps None st)
   | PRequested ps rq =>
+      (* fix commit a11000d: headers whose total difficulty overflows are rejected up front *)
+      if negb (is_ok (vtd msg_last)) then Ok (unchanged E_INVALID_CHAIN_ROOT ps (Some rq) st) else
       let* same := same_vheader (pr_last rq) msg_last in
       if negb same then
         if proof_empty then
@@ -251,6 +253,7 @@ Definition execute
           else Ok (mkEff C_OK ps None false true st None) (* last state replaced; follow-up request not modelled *)
         else Ok (unchanged C_OK ps (Some rq) st)
       else
+      if negb (headers_ok (fun h => is_ok (vtd h)) hs) then Ok (unchanged E_INVALID_CHAIN_ROOT ps (Some rq) st) else
       let* v := verify_all last_n tau ps rq msg_last hs mmr in
       match v with
       | inl code => Ok (unchanged code ps (Some rq) st)
